@@ -18,7 +18,10 @@ SHAPES = [(), (1,), (3,), (5,), (2, 2), (2, 3), (2, 1, 2), (4, 5), (2, 2, 2), (4
 
 
 def rand_x(rng, shape):
-    return rng.uniform(0.3, 2.5, size=shape) if shape else np.asarray(float(rng.uniform(0.3, 2.5)))
+    """elements of either sign, magnitude 0.3 .. 2.5 (away from the poles of the test functions at 0 and -3); one array in four is all positive"""
+    mag = rng.uniform(0.3, 2.5, size=shape) if shape else np.asarray(float(rng.uniform(0.3, 2.5)))
+    sgn = rng.choice([-1.0, 1.0], size=shape) if shape else np.asarray(float(rng.choice([-1.0, 1.0])))
+    return mag if rng.random() < 0.25 else mag * sgn
 
 
 def hexes(a):
